@@ -10,7 +10,9 @@ For a pair of traces of the same plan (same forced outputs) `dispOk` says `max_i
 `Σ_i ε_i · d_i / sens_i` (`DPL/Model/PrivLoss.lean`).
 
 Known findings at HEAD (the model is faithful, the counter-examples are theorems, the proved statements are the
-`_partial` ones, the full statements are kept as `def …_full : Prop`):
+`_partial` ones — scalar AND `axis=` variants: `nanmean/nanvar/nanstd[_axis]_privloss_partial` on NaN-free data,
+`nansum[_axis]_privloss_partial` on all data when 0 lies within the bounds —, the full statements are kept as
+`def …_full : Prop`):
   * nanmean / nanvar / nanstd configure the sensitivity with `array.size`, which counts NaNs;
   * nansum: a NaN that becomes a value moves the sum by |clip v| > u − l when 0 ∉ [l, u];
   * histogram* with `weights`: the count moves by the weight, the sensitivity stays 1.
@@ -24,6 +26,7 @@ import DPL.Proofs.ToolsPlan
 import DPL.Proofs.ToolsSens
 import DPL.Proofs.ToolsHist
 import DPL.Proofs.ToolsQuantile
+import DPL.Proofs.ToolsNanAxis
 
 namespace DPL.C07
 open DPL DPL.Tools
@@ -195,6 +198,32 @@ theorem wrapAxis_privloss {β ρ : Type} (dflt : β) (size : Nat) (hsize : 0 < s
       · rw [column_replace, column_replace]
         exact hsens c _ _ _ _ (column_length dflt c pre) (column_length dflt c post)
       · rw [heps]; positivity)
+  refine ⟨hb.1, le_trans hb.2 (le_of_eq ?_)⟩
+  simp only [heps]
+  exact split_sum ε size hsize
+
+/-- the same with the influence bound asked only of the two matrices at hand (cell by cell): what the nan-variants
+need, whose sensitivity expression is right on some data only -/
+theorem wrapAxis_privloss_cols {β ρ : Type} (dflt : β) (size : Nat) (hsize : 0 < size) (ε : ℝ) (hε : 0 ≤ ε)
+    (bounds : Nat → ℝ × ℝ) (cell : (ε l u : ℝ) → Plan (List β) ℝ ρ) (mk : (l u : ℝ) → Cell (List β) ℝ ρ)
+    (hcell : ∀ l u, cell (ε / (size : ℝ)) l u = (mk l u).plan)
+    (heps : ∀ l u, (mk l u).c.eps = ε / (size : ℝ))
+    (D D' : List (List β))
+    (hsens : ∀ c, c < size →
+      |(mk (bounds c).1 (bounds c).2).inp (column dflt c D) - (mk (bounds c).1 (bounds c).2).inp (column dflt c D')| ≤
+        (mk (bounds c).1 (bounds c).2).c.sens)
+    (outs : List ℝ) (hlen : outs.length = size) :
+    PrivLossOk ((wrapAxis dflt size ε bounds cell).run D outs) ((wrapAxis dflt size ε bounds cell).run D' outs) ε := by
+  rw [wrapAxis_eq_cells dflt size ε bounds cell mk hcell]
+  have hl : outs.length = (axisCells dflt size bounds mk).length := by simp [axisCells, hlen]
+  rw [run_seq_cells _ _ _ hl, run_seq_cells _ _ _ hl]
+  refine ⟨rfl, rfl, rfl, ?_⟩
+  simp only [axisCells, List.map_map, Function.comp_def]
+  have hb := privLoss_map_le (List.range size)
+    (fun c => (mk (bounds c).1 (bounds c).2).c)
+    (fun c => (mk (bounds c).1 (bounds c).2).inp (column dflt c D))
+    (fun c => (mk (bounds c).1 (bounds c).2).inp (column dflt c D'))
+    (fun c hc => ⟨hsens c (List.mem_range.mp hc), by rw [heps]; positivity⟩)
   refine ⟨hb.1, le_trans hb.2 (le_of_eq ?_)⟩
   simp only [heps]
   exact split_sum ε size hsize
@@ -406,6 +435,102 @@ theorem nansum_privloss_partial (ε l u : ℝ) (hε : 0 ≤ ε) (h : l ≤ u) (h
       ((nansumPlan (pre ++ x :: post).length ε l u).run (pre ++ y :: post) [o]) ε :=
   oneCall_privloss _ _ id _ _ o (Tools.nansum_sens_partial h h0 pre post x y) hε
 
+/-- `nanstd` hands the same input to the same mechanism as `nanvar` (`np.sqrt` of its release): proved part -/
+theorem nanstd_privloss_partial (ε l u : ℝ) (hε : 0 ≤ ε) (h : l ≤ u) (pre post : List ℝ) (x y o : ℝ) :
+    PrivLossOk
+      ((nanstdPlan (pre.map some ++ some x :: post.map some).length ε l u).run (pre.map some ++ some x :: post.map some) [o])
+      ((nanstdPlan (pre.map some ++ some x :: post.map some).length ε l u).run (pre.map some ++ some y :: post.map some) [o])
+      ε := by
+  unfold nanstdPlan nanvarPlan
+  rw [single_eq_oneCall, map_oneCall]
+  apply oneCall_privloss _ _ _ _ _ o _ hε
+  have e1 : vals (pre.map some ++ some x :: post.map some) = pre ++ x :: post := by
+    rw [← vals_map_some (pre ++ x :: post)]; simp
+  have e2 : vals (pre.map some ++ some y :: post.map some) = pre ++ y :: post := by
+    rw [← vals_map_some (pre ++ y :: post)]; simp
+  simp only [e1, e2]
+  have := Tools.var_sens h pre post x y
+  simpa using this
+
+/-! ### the nan-variants over an axis (`_wrap_axis`): proved parts, by the same route as the plain axis theorems.
+NaN-free region = a proper NaN-free matrix (`someRows`: every entry `some`, every row with at least `size` entries) -/
+
+theorem nanmean_axis_privloss_partial (size : Nat) (hsize : 0 < size) (ε : ℝ) (hε : 0 ≤ ε) (bounds : Nat → ℝ × ℝ)
+    (hb : ∀ c, (bounds c).1 ≤ (bounds c).2) (pre post : List (List ℝ)) (r r' : List ℝ)
+    (hrows : ∀ row ∈ pre ++ r :: r' :: post, size ≤ row.length) (outs : List ℝ) (hlen : outs.length = size) :
+    PrivLossOk
+      ((wrapAxis none size ε bounds (nanmeanPlan (pre ++ r :: post).length)).run (someRows (pre ++ r :: post)) outs)
+      ((wrapAxis none size ε bounds (nanmeanPlan (pre ++ r :: post).length)).run (someRows (pre ++ r' :: post)) outs)
+      ε := by
+  apply wrapAxis_privloss_cols none size hsize ε hε bounds _
+    (fun l u => ⟨⟨"LaplaceTruncated", ε / (size : ℝ), 0, (u - l) / ((pre ++ r :: post).length : ℝ), l, u, .osCsprng⟩,
+      fun D => mean ((vals D).map (clip l u)), id⟩)
+    (fun l u => rfl) (fun l u => rfl) _ _ _ outs hlen
+  intro c hc
+  have h1 : ∀ row ∈ pre ++ r :: post, c < row.length := fun row hrow =>
+    lt_of_lt_of_le hc (hrows row (by simp only [List.mem_append, List.mem_cons] at hrow ⊢; tauto))
+  have h2 : ∀ row ∈ pre ++ r' :: post, c < row.length := fun row hrow =>
+    lt_of_lt_of_le hc (hrows row (by simp only [List.mem_append, List.mem_cons] at hrow ⊢; tauto))
+  simp only [vals_column_someRows c _ h1, vals_column_someRows c _ h2, column_replace]
+  have := Tools.mean_sens (hb c) (column 0 c pre) (column 0 c post) (r.getD c 0) (r'.getD c 0)
+  simpa [column_length] using this
+
+theorem nanvar_axis_privloss_partial (size : Nat) (hsize : 0 < size) (ε : ℝ) (hε : 0 ≤ ε) (bounds : Nat → ℝ × ℝ)
+    (hb : ∀ c, (bounds c).1 ≤ (bounds c).2) (pre post : List (List ℝ)) (r r' : List ℝ)
+    (hrows : ∀ row ∈ pre ++ r :: r' :: post, size ≤ row.length) (outs : List ℝ) (hlen : outs.length = size) :
+    PrivLossOk
+      ((wrapAxis none size ε bounds (nanvarPlan (pre ++ r :: post).length)).run (someRows (pre ++ r :: post)) outs)
+      ((wrapAxis none size ε bounds (nanvarPlan (pre ++ r :: post).length)).run (someRows (pre ++ r' :: post)) outs)
+      ε := by
+  apply wrapAxis_privloss_cols none size hsize ε hε bounds _
+    (fun l u => ⟨⟨"LaplaceBoundedDomain", ε / (size : ℝ), 0, varSens (pre ++ r :: post).length l u, 0,
+      ((u - l) * (u - l)) / 4, .osCsprng⟩, fun D => var ((vals D).map (clip l u)), id⟩)
+    (fun l u => rfl) (fun l u => rfl) _ _ _ outs hlen
+  intro c hc
+  have h1 : ∀ row ∈ pre ++ r :: post, c < row.length := fun row hrow =>
+    lt_of_lt_of_le hc (hrows row (by simp only [List.mem_append, List.mem_cons] at hrow ⊢; tauto))
+  have h2 : ∀ row ∈ pre ++ r' :: post, c < row.length := fun row hrow =>
+    lt_of_lt_of_le hc (hrows row (by simp only [List.mem_append, List.mem_cons] at hrow ⊢; tauto))
+  simp only [vals_column_someRows c _ h1, vals_column_someRows c _ h2, column_replace]
+  have := Tools.var_sens (hb c) (column 0 c pre) (column 0 c post) (r.getD c 0) (r'.getD c 0)
+  simpa [column_length] using this
+
+theorem nanstd_axis_privloss_partial (size : Nat) (hsize : 0 < size) (ε : ℝ) (hε : 0 ≤ ε) (bounds : Nat → ℝ × ℝ)
+    (hb : ∀ c, (bounds c).1 ≤ (bounds c).2) (pre post : List (List ℝ)) (r r' : List ℝ)
+    (hrows : ∀ row ∈ pre ++ r :: r' :: post, size ≤ row.length) (outs : List ℝ) (hlen : outs.length = size) :
+    PrivLossOk
+      ((wrapAxis none size ε bounds (nanstdPlan (pre ++ r :: post).length)).run (someRows (pre ++ r :: post)) outs)
+      ((wrapAxis none size ε bounds (nanstdPlan (pre ++ r :: post).length)).run (someRows (pre ++ r' :: post)) outs)
+      ε := by
+  apply wrapAxis_privloss_cols none size hsize ε hε bounds _
+    (fun l u => ⟨⟨"LaplaceBoundedDomain", ε / (size : ℝ), 0, varSens (pre ++ r :: post).length l u, 0,
+      ((u - l) * (u - l)) / 4, .osCsprng⟩, fun D => var ((vals D).map (clip l u)), fun o => Transc.sqrt o⟩)
+    (fun l u => by
+      unfold nanstdPlan nanvarPlan
+      rw [single_eq_oneCall, map_oneCall]; rfl)
+    (fun l u => rfl) _ _ _ outs hlen
+  intro c hc
+  have h1 : ∀ row ∈ pre ++ r :: post, c < row.length := fun row hrow =>
+    lt_of_lt_of_le hc (hrows row (by simp only [List.mem_append, List.mem_cons] at hrow ⊢; tauto))
+  have h2 : ∀ row ∈ pre ++ r' :: post, c < row.length := fun row hrow =>
+    lt_of_lt_of_le hc (hrows row (by simp only [List.mem_append, List.mem_cons] at hrow ⊢; tauto))
+  simp only [vals_column_someRows c _ h1, vals_column_someRows c _ h2, column_replace]
+  have := Tools.var_sens (hb c) (column 0 c pre) (column 0 c post) (r.getD c 0) (r'.getD c 0)
+  simpa [column_length] using this
+
+/-- `nansum(…, axis=…)`: when 0 lies within every cell's bounds, for ALL data — NaNs, short rows (read as NaN) included -/
+theorem nansum_axis_privloss_partial (size : Nat) (hsize : 0 < size) (ε : ℝ) (hε : 0 ≤ ε) (bounds : Nat → ℝ × ℝ)
+    (hb : ∀ c, (bounds c).1 ≤ (bounds c).2) (h0 : ∀ c, (bounds c).1 ≤ 0 ∧ 0 ≤ (bounds c).2)
+    (pre post : List (List (Option ℝ))) (r r' : List (Option ℝ)) (outs : List ℝ) (hlen : outs.length = size) :
+    PrivLossOk ((wrapAxis none size ε bounds (nansumPlan (pre ++ r :: post).length)).run (pre ++ r :: post) outs)
+      ((wrapAxis none size ε bounds (nansumPlan (pre ++ r :: post).length)).run (pre ++ r' :: post) outs) ε := by
+  apply wrapAxis_privloss none size hsize ε hε bounds _
+    (fun l u => ⟨⟨"LaplaceTruncated", ε / (size : ℝ), 0, u - l, l * ((pre ++ r :: post).length : ℝ),
+      u * ((pre ++ r :: post).length : ℝ), .osCsprng⟩, fun D => Tools.sum ((vals D).map (clip l u)), id⟩)
+    (fun l u => rfl) (fun l u => rfl) pre post r r' _ outs hlen
+  intro c p q x y _ _
+  exact Tools.nansum_sens_partial (hb c) (h0 c) p q x y
+
 /-- full statement for histograms including weights (FALSE for the code as it is; `hist_privloss` is the part that
 is proved: `weights=None`) -/
 def hist_sens_full : Prop :=
@@ -424,5 +549,12 @@ example : PrivLossOk ((meanPlan 2 1 0 1).run [0, 1] [(1 : ℝ) / 2]) ((meanPlan 
 /-- the mean bound is attained: corner-to-corner replacement moves the mean by exactly (u − l)/n -/
 example : |mean (([] ++ (0 : ℝ) :: [1]).map (clip 0 1)) - mean (([] ++ (1 : ℝ) :: [1]).map (clip 0 1))| = (1 - 0) / 2 := by
   norm_num [mean, Tools.sum, clip]
+
+/-- the NaN-free region of the axis variants is inhabited: a 2 × 1 matrix, one cell -/
+example : PrivLossOk ((wrapAxis none 1 1 (fun _ => ((0 : ℝ), (1 : ℝ))) (nanmeanPlan 2)).run (someRows [[0], [1]]) [1 / 2])
+    ((wrapAxis none 1 1 (fun _ => ((0 : ℝ), (1 : ℝ))) (nanmeanPlan 2)).run (someRows [[1], [1]]) [1 / 2]) 1 := by
+  have := nanmean_axis_privloss_partial 1 (by norm_num) 1 (by norm_num) (fun _ => ((0 : ℝ), (1 : ℝ)))
+    (by intro c; norm_num) [] [[1]] [0] [1] (by simp) [1 / 2] rfl
+  simpa using this
 
 end DPL.C07
